@@ -86,7 +86,7 @@ def check_program(shard, prog, argv, choices_list, exhaustive=True, nctx=4):
         plans = []
         sc = crun.Script()
         for choices in choices_list:
-            data = inputs.guided_input(m, choices)
+            data = choices if isinstance(choices, (bytes, bytearray)) else inputs.guided_input(m, choices)
             if not data:
                 continue
             # byte per call, the whole input in one call, and two halves: the C must follow the machine inside a chunk too
@@ -208,6 +208,12 @@ def gen_cfg(tier):
 
 @st.composite
 def case_strategy(draw, tier):
+    if draw(st.integers(0, 7)) == 0:
+        from checks.c02 import yield_tail_program
+        prog = draw(yield_tail_program())
+        argv = list(prog.argv) + draw(options.codegen_options(indirect=True))
+        choices = [list(bytes(draw(st.lists(st.sampled_from(list(b"abxcdqef")), min_size=2, max_size=6)))) for _ in range(4)]
+        return prog, argv, [bytes(c) for c in choices]
     mode = draw(st.sampled_from(["plain", "plain", "yield", "eof", "both"]))
     cfg = gen.GenConfig(max_depth=2, max_stmts=4, allow_yield=mode in ("yield", "both"), allow_end=mode in ("eof", "both"),
                         kinds={"yield": 2 if mode in ("yield", "both") else 0})
